@@ -1061,7 +1061,15 @@ res.acked_ids.push(ev.id);
                 let _ = std::fs::write(dir.join(&id), b"{\"schema\":\"x\"}");
                 (None, Some(id))
             }
-            SummarySel::UnreadableArtifact => (None, Some("e".repeat(64))),
+            // ids that do not resolve to a readable blob: never written, empty, and ones that
+            // resolve to a directory once the blob store exists
+            SummarySel::UnreadableArtifact => (None, Some(match index % 5 {
+                0 => "e".repeat(64),
+                1 => String::new(),
+                2 => ".".to_string(),
+                3 => "../blobs".to_string(),
+                _ => "..".to_string(),
+            })),
             SummarySel::Both => (Some(format!("handoff summary {actor}/{index}")), Some("d".repeat(64))),
         }
     }
